@@ -32,6 +32,9 @@ pub struct GenCfg {
     /// deep queues: 85% of limit orders rest at one of two non-crossing prices of their own side
     /// (bids at mid-1/mid, asks at mid+1/mid+2), the rest and all market orders trade through them
     pub narrow: bool,
+    /// percentage of creations / volume modifications with volume 0 (only where the oracle is a
+    /// differential between two real objects and the property has no volume clause: C14)
+    pub zero_vol_pct: u32,
 }
 
 impl GenCfg {
@@ -56,6 +59,7 @@ impl GenCfg {
             drain: true,
             market_pct: 20,
             narrow: false,
+            zero_vol_pct: 0,
         }
     }
 }
@@ -94,6 +98,9 @@ fn price_strategy(f: &Frame) -> BoxedStrategy<u32> {
         v.push((60, (0u32..7, 1u32..tick.max(2)).prop_map(move |(d, r)| ((mid - 3 + d) * tick).saturating_add(r % tick.max(1))).boxed()));
         v.push((10, prop_oneof![Just(1u32), Just(tick.saturating_add(1)), Just(tick.saturating_sub(1).max(1)), Just(u32::MAX - 1), Just(u32::MAX - 2)].boxed()));
         v.push((15, any::<u32>().prop_map(move |p| p.clamp(1, km * tick)).boxed()));
+        // the two ends of the price range: a bid may rest at price 0 and an ask at 2^32-1 (the interpreters
+        // turn the combinations that denote market orders - bid at 2^32-1, ask at 0 - into ordinary prices)
+        v.push((6, prop_oneof![Just(0u32), Just(u32::MAX)].boxed()));
     }
     Union::new_weighted(v).boxed()
 }
@@ -136,7 +143,8 @@ fn op_strategy(cfg: &GenCfg, f: &Frame) -> BoxedStrategy<Op> {
         let m = cfg.market_pct;
         (0u32..100, p).prop_map(move |(r, p)| if r < m { None } else { Some(p) }).boxed()
     };
-    let vol = vol_strategy(cfg.wide);
+    let zp = cfg.zero_vol_pct;
+    let vol = if zp > 0 { (0u32..100, vol_strategy(cfg.wide)).prop_map(move |(r, v)| if r < zp { 0 } else { v }).boxed() } else { vol_strategy(cfg.wide) };
     let trader = trader_strategy(cfg.wide);
     let rf = ref_strategy(cfg.redundant_skew);
     let new_order = if cfg.narrow {
@@ -303,7 +311,7 @@ pub fn market_case_strategy(cfg: GenCfg, max_assets: usize) -> BoxedStrategy<Mar
             })
             .collect();
         let _ = n;
-        proptest::collection::vec(Union::new_weighted(per_asset), 0..=cfg.max_len).prop_map(move |ops| MarketCase { ticks: ticks.clone(), levels, trading, t0, ops })
+        proptest::collection::vec(Union::new_weighted(per_asset), 0..=cfg.max_len).prop_map(move |ops| MarketCase { ticks: ticks.clone(), levels, trading, t0, ops, zero_vols: cfg.zero_vol_pct > 0 })
     })
     .boxed()
 }
